@@ -28,6 +28,8 @@ func main() {
 		os.Exit(cmdList(os.Args[2:]))
 	case "locals":
 		os.Exit(cmdLocals(os.Args[2:]))
+	case "axiom-model":
+		os.Exit(cmdAxiomModel(os.Args[2:]))
 	default:
 		fmt.Fprintln(os.Stderr, "unknown command", os.Args[1])
 		os.Exit(2)
@@ -227,6 +229,7 @@ func cmdList(args []string) int {
 }
 
 var runNotes = map[string]bool{}
+var axiomModel = "not run in the quick tier (run by the thorough tier and by `govc axiom-model`)"
 
 // exportedKey: is the function or method named by a contract key part of the package API?
 func exportedKey(k string) bool {
@@ -341,6 +344,15 @@ func cmdCheck(args []string) int {
 
 	d := &Discharger{outDir: filepath.Join(o.verif, "out", "vc", prop), timeoutS: o.timeoutS, thorough: o.tier == "thorough"}
 	os.RemoveAll(d.outDir)
+	if o.tier == "thorough" {
+		// consistency of the background theory: every base axiom must be valid in the reference model
+		n, ok, det := runAxiomModel(w, d.outDir)
+		axiomModel = fmt.Sprintf("%d/%d background axioms (slices, strings, maps) valid in the reference model (z3 5.1)", ok, n)
+		if ok != n {
+			fmt.Fprintln(os.Stderr, "infrastructure failure (no verdict): background axioms are not valid in the reference model:", det)
+			return 2
+		}
+	}
 	all = pruneCovers(all)
 	schema := schemaObligations(w, prop)
 	d.Run(w, all, 16)
@@ -631,7 +643,7 @@ func report(o *Options, w *World, prop string, seed int, all []*Obligation, repo
 			"assumed_contracts": asm, "uncontracted_callees": hav,
 			"vacuity":             map[string]interface{}{"covers": nCover, "covered": nCovered, "vacuous": len(vacuous)},
 			"solver_splits":       d.splits,
-			"slowest_obligations": slowest, "timeout_s": d.timeoutS,
+			"slowest_obligations": slowest, "timeout_s": d.timeoutS, "axiom_model": axiomModel, "solver_answers": d.answers,
 			"contract_token_scan": scan, "per_function": reports,
 			"failed": names(failed), "undecided": names(undecided), "known_findings_reported": knownLines,
 		},
